@@ -865,8 +865,18 @@ class C20(Check):
                     fail("tank_capacity-exception", "tank_capacity (second evaluation) raised %s: %s" % (type(e).__name__, e), {"call": "tank_capacity twice"})
         # water service availability
         try:
-            exp = pd.DataFrame({n: [rnd(0, 0.03) if rng.random() < 0.8 else 0.0 for _ in times] for n in jn}, index=times)
-            act = demand.loc[:, jn]
+            # expected demand: mostly positive, sometimes exactly 0 (-> NaN, documented) and sometimes NEGATIVE (an inflow / well
+            # junction: negative base demand) -- there the documented ratio demand / expected_demand is still defined
+            def ev_():
+                r_ = rng.random()
+                return 0.0 if r_ < 0.15 else -rnd(0.001, 0.03) if r_ < 0.3 else rnd(0, 0.03)
+
+            exp = pd.DataFrame({n: [ev_() for _ in times] for n in jn}, index=times)
+            act = demand.loc[:, jn].copy()
+            for n in jn:  # delivered inflow where the expected demand is an inflow (sometimes)
+                for tt in times:
+                    if exp.loc[tt, n] < 0 and rng.random() < 0.7:
+                        act.loc[tt, n] = -rnd(0, 0.03)
             w = wntr.metrics.water_service_availability(exp, act)
             ws = wntr.metrics.water_service_availability(exp.sum(axis=0), act.sum(axis=0))
             for n in jn:
@@ -876,6 +886,7 @@ class C20(Check):
                     def cb(o, impl=impl, n=n, tt=tt, d_=float(act.loc[tt, n]), e_=float(exp.loc[tt, n])):
                         ctx.case(("wsa", sid, n, tt), True)
                         ctx.count("wsa")
+                        ctx.count("wsa_expected_%s" % ("negative" if e_ < 0 else "zero" if e_ == 0 else "positive"))
                         if o == "nan":
                             # documented: "If expected demand is 0 ..., water service availability will be set to NaN"
                             ctx.count("wsa_zero_expected_%s" % ("zero_demand" if d_ == 0 else "nonzero_demand"))
